@@ -1,6 +1,8 @@
 (* Lemmas about Model/Accuracy.v (truth-space table = recount; prediction errors). *)
 From Coq Require Import List Bool ZArith QArith Qround Lia Sorting.Sorted Arith.
 From Splinkv Require Import Base.TV Base.GroupBy Base.CumSum Model.BlockAnalysis Model.Accuracy.
+From Coq Require Strings.String.
+Import String.StringSyntax.
 Import ListNotations.
 Local Open Scope Z_scope.
 
@@ -353,6 +355,96 @@ Section TruthTable.
   Qed.
 End TruthTable.
 
+(* ------------------------------------------------------------------ corollaries of the recount *)
+Lemma table_row_conservation :
+  forall thr_actual rnd zero_unfound total_labels rows t,
+    In t (truth_space_table thr_actual rnd zero_unfound total_labels rows) ->
+    TP t + FN t = P t /\ TN t + FP t = N t /\ P t + N t = total t /\
+    total t = match total_labels with Some tl => tl | None => Z.of_nat (length rows) end.
+Proof.
+  intros ta rnd zu tl rows t Ht.
+  destruct (table_row_recount ta rnd zu tl rows t Ht) as (H1 & H2 & H3 & H4 & H5 & H6 & H7).
+  pose proof (countZ_split (is_pos ta) (fun r => Qle_bool (thr t) (adj_score rnd zu r)) rows) as S1.
+  pose proof (countZ_split (is_pos ta) (fun r => negb (Qle_bool (thr t) (adj_score rnd zu r))) rows) as S2.
+  pose proof (countZ_all (fun r => Qle_bool (thr t) (adj_score rnd zu r)) rows) as S3.
+  pose proof (countZ_all (is_pos ta) rows) as S4.
+  pose proof (countZ_split (fun r => Qle_bool (thr t) (adj_score rnd zu r)) (is_pos ta) rows) as S5.
+  pose proof (countZ_split (fun r => Qle_bool (thr t) (adj_score rnd zu r)) (fun r => negb (is_pos ta r)) rows) as S6.
+  rewrite (countZ_ext (fun x => Qle_bool (thr t) (adj_score rnd zu x) && is_pos ta x)
+                      (fun r => is_pos ta r && Qle_bool (thr t) (adj_score rnd zu r))) in S5
+    by (intros; apply andb_comm).
+  rewrite (countZ_ext (fun x => negb (Qle_bool (thr t) (adj_score rnd zu x)) && is_pos ta x)
+                      (fun r => is_pos ta r && negb (Qle_bool (thr t) (adj_score rnd zu r)))) in S5
+    by (intros; apply andb_comm).
+  rewrite (countZ_ext (fun x => Qle_bool (thr t) (adj_score rnd zu x) && negb (is_pos ta x))
+                      (fun r => negb (is_pos ta r) && Qle_bool (thr t) (adj_score rnd zu r))) in S6
+    by (intros; apply andb_comm).
+  rewrite (countZ_ext (fun x => negb (Qle_bool (thr t) (adj_score rnd zu x)) && negb (is_pos ta x))
+                      (fun r => negb (is_pos ta r) && negb (Qle_bool (thr t) (adj_score rnd zu r)))) in S6
+    by (intros; apply andb_comm).
+  cbv zeta in *. destruct tl as [tl|]; unfold ghosts in *; lia.
+Qed.
+
+Lemma table_monotone :
+  forall thr_actual rnd zero_unfound total_labels rows a b,
+    In a (truth_space_table thr_actual rnd zero_unfound total_labels rows) ->
+    In b (truth_space_table thr_actual rnd zero_unfound total_labels rows) ->
+    (thr a <= thr b)%Q ->
+    TP b <= TP a /\ FP b <= FP a /\ FN a <= FN b /\ TN a <= TN b.
+Proof.
+  intros ta rnd zu tl rows a b Ha Hb Hle.
+  destruct (table_row_recount ta rnd zu tl rows a Ha) as (A1 & A2 & A3 & A4 & _).
+  destruct (table_row_recount ta rnd zu tl rows b Hb) as (B1 & B2 & B3 & B4 & _).
+  assert (Himp : forall r, Qle_bool (thr b) (adj_score rnd zu r) = true ->
+                           Qle_bool (thr a) (adj_score rnd zu r) = true).
+  { intros r H. apply Qle_bool_iff in H. apply Qle_bool_iff. eapply Qle_trans; eauto. }
+  rewrite A1, A2, A3, A4, B1, B2, B3, B4. repeat split.
+  - apply countZ_mono. intros r _. rewrite !andb_true_iff. intros [? ?]. auto.
+  - apply countZ_mono. intros r _. rewrite !andb_true_iff. intros [? ?]. auto.
+  - apply countZ_mono. intros r _. rewrite !andb_true_iff, !negb_true_iff. intros [? H]. split; [assumption|].
+    destruct (Qle_bool (thr b) (adj_score rnd zu r)) eqn:E; [|reflexivity]. rewrite (Himp r E) in H. discriminate.
+  - apply Z.add_le_mono_r. apply countZ_mono. intros r _. rewrite !andb_true_iff, !negb_true_iff.
+    intros [? H]. split; [assumption|].
+    destruct (Qle_bool (thr b) (adj_score rnd zu r)) eqn:E; [|reflexivity]. rewrite (Himp r E) in H. discriminate.
+Qed.
+
+Lemma unfound_predicted_negative :
+  forall thr_actual rnd total_labels rows t r,
+    In t (truth_space_table thr_actual rnd true total_labels rows) ->
+    found r = false ->
+    Qle_bool (thr t) (adj_score rnd true r) = false.
+Proof.
+  intros ta rnd tl rows t r Ht Hf. unfold adj_score. rewrite Hf.
+  destruct (table_row_frame ta rnd true tl rows t Ht) as (Hmin & _).
+  destruct (Qle_bool (thr t) unfound_score) eqn:E; [|reflexivity].
+  apply Qle_bool_iff in E. apply Qle_bool_iff in Hmin.
+  assert (H : (min_reported <= unfound_score)%Q) by (eapply Qle_trans; eauto).
+  exfalso. revert H. unfold min_reported, unfound_score, Qle. cbn. lia.
+Qed.
+
+Lemma column_mode_recount :
+  forall lt counts nrules thr_actual rnd zero_unfound preds tab t,
+    truth_space_table_from_labels_column lt counts nrules thr_actual rnd zero_unfound preds = Some tab ->
+    In t tab ->
+    exists tl, cartesian lt counts = Some tl /\
+      let rows := labels_with_predictions_from_column nrules preds in
+      let unscored := tl - Z.of_nat (length preds) in
+      let pos := is_pos thr_actual in
+      let pred := fun r => Qle_bool (thr t) (adj_score rnd zero_unfound r) in
+      TP t = countZ (fun r => pos r && pred r) rows /\
+      FP t = countZ (fun r => negb (pos r) && pred r) rows /\
+      FN t = countZ (fun r => pos r && negb (pred r)) rows /\
+      TN t = countZ (fun r => negb (pos r) && negb (pred r)) rows + unscored /\
+      total t = tl.
+Proof.
+  intros lt counts nrules ta rnd zu preds tab t Htab Ht. unfold truth_space_table_from_labels_column in Htab.
+  destruct (cartesian lt counts) as [tl|]; [|discriminate]. injection Htab as <-. exists tl. split; [reflexivity|].
+  destruct (table_row_recount ta rnd zu (Some tl) _ t Ht) as (H1 & H2 & H3 & H4 & H5 & H6 & H7).
+  assert (Hlen : length (labels_with_predictions_from_column nrules preds) = length preds)
+    by apply map_length.
+  cbv zeta. unfold ghosts in *. rewrite Hlen in *. repeat split; try assumption. lia.
+Qed.
+
 (* ------------------------------------------------------------------ rounding *)
 Lemma round_half_away_mono x y : (x <= y)%Q -> round_half_away x <= round_half_away y.
 Proof.
@@ -377,9 +469,10 @@ Proof.
   - apply Qceiling_resp_le. apply Qplus_le_l. exact H.
 Qed.
 
-Lemma round_to_mono r x y : (0 < r)%Q -> (x <= y)%Q -> (round_to r x <= round_to r y)%Q.
+Lemma round_to_mono rm rd x y :
+  (0 <= rm)%Q -> (0 < rd)%Q -> (x <= y)%Q -> (round_to rm rd x <= round_to rm rd y)%Q.
 Proof.
-  intros Hr H. unfold round_to. apply Qmult_le_l; [exact Hr|].
+  intros Hm Hr H. unfold round_to. rewrite !(Qmult_comm rm). apply Qmult_le_compat_r; [|exact Hm].
   rewrite <- Zle_Qle. apply round_half_away_mono.
   unfold Qdiv. apply Qmult_le_compat_r; [exact H|]. apply Qlt_le_weak, Qinv_lt_0_compat, Hr.
 Qed.
@@ -396,8 +489,9 @@ Lemma lower_id_same_pair ls :
                       ((id_l y = id_l x /\ id_r y = id_r x) \/ (id_l y = id_r x /\ id_r y = id_l x)))
           ls (lower_id_to_left_hand_side ls).
 Proof.
-  induction ls as [|x t IH]; cbn; constructor; [|exact IH].
-  destruct (Nat.ltb (id_l x) (id_r x)); cbn; tauto.
+  induction ls as [|x t IH]; cbn [lower_id_to_left_hand_side map]; [constructor|].
+  constructor; [|exact IH].
+  destruct (Nat.ltb (id_l x) (id_r x)); cbn; split; auto.
 Qed.
 Lemma block_from_labels_unique_ids recs ls :
   NoDup recs ->
@@ -447,16 +541,18 @@ Lemma prediction_errors_sublist column_mode inc_fp inc_fn t rows :
                             inc_fp inc_fn e)) rows.
 Proof. unfold prediction_errors. rewrite map_map. cbn. apply map_id. Qed.
 
-Lemma fp_fn_disjoint column_mode t e :
+Lemma fp_fn_disjoint (column_mode : bool) (t : Q) (e : erow) :
   isT (false_positive t e) = true ->
   isT ((if column_mode then false_negative_column t else false_negative_table t) e) = false.
 Proof.
-  unfold false_positive, false_negative_column, false_negative_table, oq_lt, oq_gt, q_lt.
-  destruct (e_cms e) as [c|]; [|destruct column_mode; cbn; intros; try discriminate].
-  rewrite !isT_and3, !isT_of_bool, !andb_true_iff, !negb_true_iff. intros [H1 H2].
-  assert (Hc : Qle_bool c t = true).
-  { destruct (Qleb_total c t) as [H|H]; [exact H|congruence]. }
-  destruct column_mode; rewrite ?isT_or3, !isT_and3, !isT_of_bool, Hc; reflexivity.
+  destruct column_mode;
+    unfold false_positive, false_negative_column, false_negative_table, oq_lt, oq_gt, q_lt;
+    rewrite ?isT_or3, !isT_and3;
+    (destruct (e_cms e) as [c|]; [|cbn; intros; discriminate]);
+    rewrite !isT_of_bool, !andb_true_iff, !negb_true_iff; intros [H1 H2];
+    (assert (Hc : Qle_bool c t = true)
+      by (destruct (Qleb_total c t) as [H|H]; [exact H|congruence]));
+    rewrite Hc; reflexivity.
 Qed.
 
 (* unfolded meaning of the three-valued conditions *)
@@ -464,50 +560,78 @@ Lemma false_positive_iff t e :
   isT (false_positive t e) = true <->
   exists c, e_cms e = Some c /\ (c < t)%Q /\ (t < e_prob e)%Q.
 Proof.
-  unfold false_positive, oq_lt, q_lt. destruct (e_cms e) as [c|].
-  - rewrite isT_and3, !isT_of_bool, andb_true_iff, !negb_true_iff. split.
-    + intros [H1 H2]. exists c. repeat split.
+  unfold false_positive, oq_lt, q_lt. rewrite isT_and3. destruct (e_cms e) as [c|].
+  - rewrite !isT_of_bool, andb_true_iff, !negb_true_iff. split.
+    + intros [H1 H2]. exists c. split; [reflexivity|split].
       * apply Qnot_le_lt. intros H. apply Qle_bool_iff in H. congruence.
       * apply Qnot_le_lt. intros H. apply Qle_bool_iff in H. congruence.
     + intros (c' & Hc & H1 & H2). inversion Hc; subst. split.
       * destruct (Qle_bool t c') eqn:E; [|reflexivity]. apply Qle_bool_iff in E.
-        exfalso. eapply Qlt_not_le; eauto.
+        exfalso. eapply Qlt_not_le; [|exact E]; assumption.
       * destruct (Qle_bool (e_prob e) t) eqn:E; [|reflexivity]. apply Qle_bool_iff in E.
-        exfalso. eapply Qlt_not_le; eauto.
+        exfalso. eapply Qlt_not_le; [|exact E]; assumption.
   - cbn. split; [discriminate|]. intros (c & Hc & _). discriminate.
 Qed.
 Lemma false_negative_table_iff t e :
   isT (false_negative_table t e) = true <->
   exists c, e_cms e = Some c /\ (t < c)%Q /\ (e_prob e < t)%Q.
 Proof.
-  unfold false_negative_table, oq_gt, q_lt. destruct (e_cms e) as [c|].
-  - rewrite isT_and3, !isT_of_bool, andb_true_iff, !negb_true_iff. split.
-    + intros [H1 H2]. exists c. repeat split.
+  unfold false_negative_table, oq_gt, q_lt. rewrite isT_and3. destruct (e_cms e) as [c|].
+  - rewrite !isT_of_bool, andb_true_iff, !negb_true_iff. split.
+    + intros [H1 H2]. exists c. split; [reflexivity|split].
       * apply Qnot_le_lt. intros H. apply Qle_bool_iff in H. congruence.
       * apply Qnot_le_lt. intros H. apply Qle_bool_iff in H. congruence.
     + intros (c' & Hc & H1 & H2). inversion Hc; subst. split.
       * destruct (Qle_bool c' t) eqn:E; [|reflexivity]. apply Qle_bool_iff in E.
-        exfalso. eapply Qlt_not_le; eauto.
+        exfalso. eapply Qlt_not_le; [|exact E]; assumption.
       * destruct (Qle_bool t (e_prob e)) eqn:E; [|reflexivity]. apply Qle_bool_iff in E.
-        exfalso. eapply Qlt_not_le; eauto.
+        exfalso. eapply Qlt_not_le; [|exact E]; assumption.
   - cbn. split; [discriminate|]. intros (c & Hc & _). discriminate.
 Qed.
 Lemma false_negative_column_iff t e :
   isT (false_negative_column t e) = true <->
   exists c, e_cms e = Some c /\ (t < c)%Q /\ ((e_prob e < t)%Q \/ e_found e = false).
 Proof.
-  unfold false_negative_column, oq_gt, q_lt. destruct (e_cms e) as [c|].
-  - rewrite isT_or3, !isT_and3, !isT_of_bool, <- andb_orb_distrib_r, andb_true_iff, orb_true_iff,
+  unfold false_negative_column, oq_gt, q_lt. rewrite isT_or3, !isT_and3. destruct (e_cms e) as [c|].
+  - rewrite !isT_of_bool, <- andb_orb_distrib_r, andb_true_iff, orb_true_iff,
       !negb_true_iff. split.
-    + intros [H1 H2]. exists c. repeat split.
+    + intros [H1 H2]. exists c. split; [reflexivity|split].
       * apply Qnot_le_lt. intros H. apply Qle_bool_iff in H. congruence.
       * destruct H2 as [H2|H2]; [left|right; exact H2].
         apply Qnot_le_lt. intros H. apply Qle_bool_iff in H. congruence.
     + intros (c' & Hc & H1 & H2). inversion Hc; subst. split.
       * destruct (Qle_bool c' t) eqn:E; [|reflexivity]. apply Qle_bool_iff in E.
-        exfalso. eapply Qlt_not_le; eauto.
+        exfalso. eapply Qlt_not_le; [|exact E]; assumption.
       * destruct H2 as [H2|H2]; [left|right; exact H2].
         destruct (Qle_bool t (e_prob e)) eqn:E; [|reflexivity]. apply Qle_bool_iff in E.
-        exfalso. eapply Qlt_not_le; eauto.
+        exfalso. eapply Qlt_not_le; [|exact E]; assumption.
   - cbn. split; [discriminate|]. intros (c & Hc & _). discriminate.
+Qed.
+
+(* ------------------------------------------------------------------ derived rates *)
+Lemma rates_closed_form :
+  forall t : trow,
+    let q := fun z : Z => inject_Z z in
+    let rate := fun name => match lookup_rate name rate_defs with Some e => aeval t e | None => None end in
+    rate "precision"%string = (if Qeq_bool (q (TP t) + q (FP t)) 0 then Some 1%Q
+                               else Some (q (TP t) / (q (TP t) + q (FP t)))%Q) /\
+    rate "recall"%string = (if Qeq_bool (q (P t)) 0 then None else Some (q (TP t) / q (P t))%Q) /\
+    rate "specificity"%string = (if Qeq_bool (q (N t)) 0 then None else Some (q (TN t) / q (N t))%Q) /\
+    rate "npv"%string = (if Qeq_bool (q (TN t) + q (FN t)) 0 then Some 1%Q
+                         else Some (q (TN t) / (q (TN t) + q (FN t)))%Q) /\
+    rate "accuracy"%string = (if Qeq_bool (q (P t) + q (N t)) 0 then None
+                              else Some ((q (TP t) + q (TN t)) / (q (P t) + q (N t)))%Q) /\
+    rate "f1"%string = (if Qeq_bool (inject_Z 2 * q (TP t) + q (FN t) + q (FP t)) 0 then None
+                        else Some (inject_Z 2 * q (TP t) / (inject_Z 2 * q (TP t) + q (FN t) + q (FP t)))%Q) /\
+    rate "tp_rate"%string = rate "recall"%string /\
+    rate "tn_rate"%string = rate "specificity"%string /\
+    rate "fp_rate"%string = (if Qeq_bool (q (N t)) 0 then None else Some (q (FP t) / q (N t))%Q) /\
+    rate "fn_rate"%string = (if Qeq_bool (q (P t)) 0 then None else Some (q (FN t) / q (P t))%Q).
+Proof.
+  intros t. cbv zeta. unfold lookup_rate, rate_defs. cbn [String.eqb Ascii.eqb Bool.eqb].
+  cbn [aeval existsb V C var_of]. rewrite ?orb_false_r. repeat split.
+  - change (var_of t vTP) with (inject_Z (TP t)). change (var_of t vFP) with (inject_Z (FP t)).
+    destruct (Qeq_bool (inject_Z (TP t) + inject_Z (FP t)) 0); reflexivity.
+  - change (var_of t vTN) with (inject_Z (TN t)). change (var_of t vFN) with (inject_Z (FN t)).
+    destruct (Qeq_bool (inject_Z (TN t) + inject_Z (FN t)) 0); reflexivity.
 Qed.
